@@ -250,6 +250,11 @@ class Grower:
             if not a:
                 return False
             x, shp = a
+            if rng.random() < 0.12:
+                # pass-through op on a constant (a converter would fold it, but it is a legal model)
+                shp = (rng.randint(1, 2), rng.choice([2, 4]))
+                x = self.const(list(shp), base="c")
+                self.tags.add("passthrough_on_const")
             n = int(np.prod(shp))
             if len(shp) == 4:
                 new = [shp[0], n // shp[0]]
